@@ -1,0 +1,82 @@
+/*
+ * Copyright (c) Meta Platforms, Inc. and affiliates.
+ *
+ * This source code is licensed under the MIT license found in the
+ * LICENSE file in the root directory of this source tree.
+ */
+
+// Verification hooks.  Everything in this file, and every use of the macros below, is dead unless
+// the translation unit is compiled with -DDISPENSO_VERIF.  With the define, the macros call weak
+// C functions that a verification harness may define (strong); when no harness is linked in, the
+// weak references resolve to null and the macros do nothing.
+//
+//   DISPENSO_VERIF_POINT(site, obj)   schedule point, placed immediately before an atomic access
+//                                     (or an opaque linearizable call).  `site` is a string literal
+//                                     naming the specification action that begins here; `obj` is the
+//                                     address of the object operated on.
+//   DISPENSO_VERIF_NOTE(site, obj, a, b)  thread-local observation (never a schedule point).
+//   DISPENSO_VERIF_THREAD_BEGIN/END   registration of library-created threads.
+//   DISPENSO_VERIF_BLOCKING_BEGIN/END around real blocking operations (join, semaphore wait).
+//   dispenso_verif_futex              seam consulted by detail::futex() before the syscall.
+
+#pragma once
+
+#if defined(DISPENSO_VERIF)
+
+#include <time.h>
+
+extern "C" {
+void dispenso_verif_point(const char* site, const void* obj) __attribute__((weak));
+void dispenso_verif_note(const char* site, const void* obj, long long a, long long b)
+    __attribute__((weak));
+void dispenso_verif_thread_begin(const char* kind, const void* owner, long long index)
+    __attribute__((weak));
+void dispenso_verif_thread_end(const char* kind, const void* owner) __attribute__((weak));
+void dispenso_verif_thread_spawned(const char* kind, const void* owner, long long index)
+    __attribute__((weak));
+void dispenso_verif_blocking_begin(const char* site, const void* obj) __attribute__((weak));
+void dispenso_verif_blocking_end(const char* site, const void* obj) __attribute__((weak));
+// Returns 1 and sets *result when the call was handled by the harness' modelled futex; 0 to fall
+// through to the real system call.
+int dispenso_verif_futex(
+    int* uaddr,
+    int futexOp,
+    int val,
+    const struct timespec* timeout,
+    int* result) __attribute__((weak));
+// Returns 1 and sets *nowSeconds when the harness owns the clock; 0 to use the real one.
+int dispenso_verif_clock(double* nowSeconds) __attribute__((weak));
+}
+
+#define DISPENSO_VERIF_POINT(site, obj) \
+  (dispenso_verif_point ? dispenso_verif_point((site), (obj)) : (void)0)
+#define DISPENSO_VERIF_NOTE(site, obj, a, b)                                                   \
+  (dispenso_verif_note ? dispenso_verif_note(                                                  \
+                             (site), (obj), static_cast<long long>(a), static_cast<long long>(b)) \
+                       : (void)0)
+#define DISPENSO_VERIF_THREAD_BEGIN(kind, owner, index)                                        \
+  (dispenso_verif_thread_begin                                                                 \
+       ? dispenso_verif_thread_begin((kind), (owner), static_cast<long long>(index))           \
+       : (void)0)
+#define DISPENSO_VERIF_THREAD_END(kind, owner) \
+  (dispenso_verif_thread_end ? dispenso_verif_thread_end((kind), (owner)) : (void)0)
+#define DISPENSO_VERIF_THREAD_SPAWNED(kind, owner, index)                                      \
+  (dispenso_verif_thread_spawned                                                               \
+       ? dispenso_verif_thread_spawned((kind), (owner), static_cast<long long>(index))         \
+       : (void)0)
+#define DISPENSO_VERIF_BLOCKING_BEGIN(site, obj) \
+  (dispenso_verif_blocking_begin ? dispenso_verif_blocking_begin((site), (obj)) : (void)0)
+#define DISPENSO_VERIF_BLOCKING_END(site, obj) \
+  (dispenso_verif_blocking_end ? dispenso_verif_blocking_end((site), (obj)) : (void)0)
+
+#else // !DISPENSO_VERIF
+
+#define DISPENSO_VERIF_POINT(site, obj) ((void)0)
+#define DISPENSO_VERIF_NOTE(site, obj, a, b) ((void)0)
+#define DISPENSO_VERIF_THREAD_BEGIN(kind, owner, index) ((void)0)
+#define DISPENSO_VERIF_THREAD_END(kind, owner) ((void)0)
+#define DISPENSO_VERIF_THREAD_SPAWNED(kind, owner, index) ((void)0)
+#define DISPENSO_VERIF_BLOCKING_BEGIN(site, obj) ((void)0)
+#define DISPENSO_VERIF_BLOCKING_END(site, obj) ((void)0)
+
+#endif // DISPENSO_VERIF
